@@ -163,10 +163,10 @@ def run_property(prop, tier="quick", seed=0, extra_checks=None, level_text=None,
     extra = []
     if extra_checks is not None:
         extra = extra_checks(tier, seed)
-    return finish(prop, tier, seed, results, extra, t0, level_text)
+    return finish(prop, tier, seed, results, extra, t0, level_text, partial=only is not None)
 
 
-def finish(prop, tier, seed, results, extra, t0, level_text=None):
+def finish(prop, tier, seed, results, extra, t0, level_text=None, partial=False):
     known = load_known_findings()
     lines = []
     exit_code = EXIT_OK
@@ -331,7 +331,12 @@ def finish(prop, tier, seed, results, extra, t0, level_text=None):
         "violations": n_viol,
     }
     os.makedirs(os.path.join(VERIF, "evidence"), exist_ok=True)
-    with open(os.path.join(VERIF, "evidence", f"{prop}.json"), "w") as fh:
+    # obligations that fail only because of a listed known finding are reported apart, not as proof obligations
+    kf_obls = {f.get("obligation") for _, _, _, f in known_hits if isinstance(f, dict) and f.get("obligation")}
+    ev["coverage"]["obligations"] = n_obl - len(kf_obls)
+    ev["coverage"]["known_finding_obligations"] = sorted(kf_obls)
+    fname = f"{prop}.partial.json" if partial else f"{prop}.json"
+    with open(os.path.join(VERIF, "evidence", fname), "w") as fh:
         json.dump(ev, fh, indent=1, default=str)
     print(f"{prop} [{tier}]: units={len(results)} obligations={n_obl} discharged={n_dis} "
           f"known-findings={len(known_hits)} violations={n_viol} undecided={len(undecided)} "
